@@ -69,8 +69,10 @@ def _is_connected_cached(cls, x, y):
         result = True
     else:
         t, f, result = sympy.Max, sympy.Min, False
-        for _ in range(2):
-            for op in "><":
+        # Same loop order as sympy's fast path: both orientations are tried for one
+        # operator before moving on, so (t, f) always matches the orientation of (x, y).
+        for op in "><":
+            for _ in range(2):
                 try:
                     v = (x >= y) if op == ">" else (x <= y)
                 except TypeError:
